@@ -25,7 +25,7 @@ def pick(rnd, i):
 
 CHECK = ComponentCheck("C24", pick, drain=0)
 shards, run_shard = CHECK.shards, CHECK.run_shard
-RULE = ("histories = hostile random read/write/remove/push sequences over few keys (entries+2) so that hits are frequent, 30% of the cycles aim all "
+RULE = ("[in 30% of the histories every provided exclusive method has a second, competing caller transaction: a request is issued by the main caller, the rival or both; condition exclusive_method_serves_at_most_one_caller_per_cycle] histories = hostile random read/write/remove/push sequences over few keys (entries+2) so that hits are frequent, 30% of the cycles aim all "
         "four methods at one key; a present key is never pushed (documented precondition); non-trivial distinct case = (entries, set of >=2 executed "
         "methods, same key or not, occupancy)")
 ASSUMPTIONS = ["keys pushed are absent at cycle start (generator consults the model)"]
